@@ -186,7 +186,7 @@ def run(chk):
     chk.rule("C08.O1", "selection = range with the greatest start containing r (inclusive at r = s), None below the first", kmax)
     chk.rule("C08.O2", "the result does not depend on the listing order (constructor sorts through the comparator)", perm_max - 1)
     chk.rule("C08.O3", "value, deriv and deriv2 come from the selected range; default_value / 0.0 when none", 2)
-    chk.rule("C08.O4", "potable: a definition without marker acts for r > 0; builder binds (marker, start); '>=' is tried before '>'", 4)
+    chk.rule("C08.O4", "potable: a definition without marker acts for r > 0; builder binds (marker, start); '>=' is tried before '>'", 6)
     chk.rule("C08.O5", "factory picks the class offering deriv/deriv2 iff any range offers it (any listing order)", 2)
     chk.attempt("P", lambda: premise(chk, P))
     stats = {"cases": 0, "nontrivial": 0, "either": 0}
@@ -301,124 +301,71 @@ def value_and_derivs(chk, P):
                key="C08.O3|none|%s" % meth)
 
 
-class Node(object):
-    """stand-in for a pyparsing ParseResults node"""
-    def __init__(self, name, items, children=()):
-        self.name = name
-        self.items = items
-        self.children = children
-
-    def m_getName(self, I, args, kwargs):
-        return Const(self.name)
-
-    def getitem(self, I, idx):
-        return self.items[idx.v]
-
-
 def potable_default(chk, P):
-    I = F.make_interp(P)
-    cp_cls = P.cls("atsim.potentials.config._config_parser", "ConfigParser")
-    # 1. the default range installed by the constructor
-    I.hooks["atsim.potentials.config._config_parser:ConfigParser._init_config_parser"] = lambda i, fv, a, k, n: W.param("raw")
-    I.hooks["atsim.potentials.config._config_parser:ConfigParser._check_for_duplicates"] = lambda i, fv, a, k, n: NONE
-    cp = I.instantiate(cp_cls, [W.param("fp")], {}, None)
-    d = cp.attrs.get("_default_range_start")
-    ok = isinstance(d, NTV) and isinstance(d.values[0], Const) and d.values[0].v == ">" and isinstance(d.values[1], Num) and d.values[1].const() == 0
-    chk.ob("C08.O4", "default range of a potable definition is ('>', 0.0)", ok, site=cp_cls.lookup("__init__").site(), found=d,
-           expect="MultiRangeDefinition('>', 0.0)", key="C08.O4|default")
-    # 2. a description without a leading marker receives that default, one with a marker keeps it
-    desc = PyObjV(Node("potential_description", {"potential_label": Const("as.zero"), "potential_parameters": ListV([], "list")}))
-    res = I.call(I.getattr(cp, "_descend_tree"), [I.call(ExtV("builtins.iter"), [ListV([desc], "list")], {})], {})
-    ok = isinstance(res, NTV) and res.values[res.cls.fields.index("start")] is d
-    chk.ob("C08.O4", "definition without marker gets the default range", ok, site=cp_cls.site_of("_descend_tree"), found=res,
-           expect="start = default range", key="C08.O4|no-marker")
-    rs = PyObjV(Node("range_start", {"range_type": Const(">="), "start": Num(ep.const(5))}))
-    res = I.call(I.getattr(cp, "_descend_tree"), [I.call(ExtV("builtins.iter"), [ListV([rs, desc], "list")], {})], {})
-    st = res.values[res.cls.fields.index("start")] if isinstance(res, NTV) else None
-    ok = isinstance(st, NTV) and st.cls.fields == ["range_type", "start"] and st.values[0].v == ">=" and st.values[1].const() == 5
-    chk.ob("C08.O4", "a leading marker binds (range_type, start) in that order", ok, site=cp_cls.site_of("_descend_tree"), found=st,
-           expect="('>=', 5)", key="C08.O4|marker")
-    # 3. builder: Multi_Range_Defn(range_type, start, form)
+    """whole definitions, from the text of a [Pair] entry to the callable the builder returns, evaluated at probe separations:
+    ConfigParser(text).pair -> Potential_Form_Builder(forms, modifiers).create_potential_function(definition)"""
+    from .c14 import parse
     b_cls = P.cls("atsim.potentials.config._potential_form_builder", "Potential_Form_Builder")
-    b = InstV(b_cls)
-
-    class Reg(object):
-        def getitem(self, J, idx):
-            return PyObjV(Fac())
-
-    class Fac(object):
-        pass
-    reg = DictV()
-    reg.items[Const("as.zero").key()] = (Const("as.zero"), FuncV(P.func(F.PFORMS, "potential")))  # any callable; replaced below
-    b.attrs["potential_form_registry"] = reg
-    b.attrs["modifier_registry"] = DictV()
-    I.hooks[F.PFORMS + ":potential"] = lambda i, fv, a, k, n: W.param("built")
-    mr = I.call(I.getattr(b, "_make_multi_range_tuple"), [res], {})
-    got = None
-    if isinstance(mr, InstV):
-        # through the public properties of Multi_Range_Defn (how it stores them is its own business)
-        got = (I.getattr(mr, "range_type"), I.getattr(mr, "start"))
-    ok = got is not None and isinstance(got[0], Const) and got[0].v == ">=" and isinstance(got[1], Num) and got[1].const() == 5
-    chk.ob("C08.O4", "builder passes (marker, start) to Multi_Range_Defn in its parameter order", ok,
-           site=b_cls.site_of("_make_multi_range_tuple"), found=got if got is not None else mr, expect="('>=', 5)",
-           key="C08.O4|builder")
-    # 3b. the public builder entry point on whole definitions: a form or a modifier, alone or followed by further ranges, acts
-    #     only from its own range start (0 below it) - also when the definition consists of that single part
-    mod_c = P.module("atsim.potentials.config._common")
+    site = b_cls.lookup("create_potential_function").site()
 
     class ModFactory(object):
         """a modifier: called with (argument definitions, builder)"""
         def m___call__(self, J, args, kwargs):
-            self.got = (args[0], args[1])
+            _ = (args, kwargs)
             return W.param("M")
 
     class FormFactory(object):
         """a potential form: called with its parameters"""
         def m___call__(self, J, args, kwargs):
-            self.got = list(args)
+            _ = (args, kwargs)
             return W.param("F")
-    for what, is_mod in (("a lone modifier '>=2 sum(...)'", True), ("a lone form '>=2 as.x'", False)):
-        J = F.make_interp(P)
+
+    def potential(defn):
+        out = parse(P, "[Pair]\nA-B : %s\n" % defn)
+        if out[0] != "ok":
+            return None, "the definition is refused: %r" % (out[1],)
+        J, cp = out[3], out[4]
         J.assumption_fns.append(F.hasattr_true({"deriv": False, "deriv2": False}))
-        pb = J.instantiate(b_cls, [DictV(), DictV()], {}, None)
-        pfr, mreg = DictV(), DictV()
-        pfr.items[Const("as.x").key()] = (Const("as.x"), PyObjV(FormFactory()))
-        mreg.items[Const("sum").key()] = (Const("sum"), PyObjV(ModFactory()))
-        pb.attrs["potential_form_registry"] = pfr
-        pb.attrs["modifier_registry"] = mreg
-        mrd = J.module_global(mod_c, "MultiRangeDefinitionTuple")
-        start = J.call(mrd, [Const(">="), Num(ep.const(2))], {})
-        if is_mod:
-            tup = J.call(J.module_global(mod_c, "PotentialModifierTuple"), [Const("sum"), ListV([], "list"), start, NONE], {})
-            name = "M"
+        try:
+            rows = J.as_iterable(J.getattr(cp, "pair"))
+            pfi = J.getattr(rows.items[0], "potential_form_instance")
+            pfr, mreg = DictV(), DictV()
+            pfr.items[Const("as.x").key()] = (Const("as.x"), PyObjV(FormFactory()))
+            mreg.items[Const("sum").key()] = (Const("sum"), PyObjV(ModFactory()))
+            pb = J.instantiate(b_cls, [pfr, mreg], {}, None)
+            pot = W.run_method(J, pb, "create_potential_function", [pfi])
+        except RaiseSignal as e:
+            return None, "raises %r" % (e.exc,)
+        return J, pot
+
+    def at(J, pot, r):
+        v = J.num(J.call(pot, [Num(ep.const(r))], {}))
+        if v.is_zero():
+            return "0"
+        for nm in ("F", "M"):
+            if ep.equal(v, ep.app(("param", nm), [ep.const(r)]))[0]:
+                return "%s(%s)" % (nm, r)
+        return repr(v)
+    cases = [
+        # definition, probes, expected, what
+        ("as.x", (-1, 0, 1), ["0", "0", "F(1)"], "a definition without a range marker acts for r > 0 (default range ('>', 0.0))", "default"),
+        (">=5 as.x", (4, 5, 6), ["0", "F(5)", "F(6)"], "a leading '>=5' binds (range_type, start) = ('>=', 5): 0 below 5, the form from 5 on", "marker-ge"),
+        (">5 as.x", (4, 5, 6), ["0", "0", "F(6)"], "a leading '>5' excludes 5 itself", "marker-gt"),
+        (">= 2 sum(as.x)", (1, 2, 3), ["0", "M(2)", "M(3)"], "a lone modifier '>=2 sum(...)': 0 below its start, its own value from the start on", "lone|modifier"),
+        (">=2 as.x", (1, 2, 3), ["0", "F(2)", "F(3)"], "a lone form '>=2 as.x': 0 below its start, its own value from the start on", "lone|form"),
+        ("as.x >=2 sum(as.x)", (-1, 1, 2, 3), ["0", "F(1)", "M(2)", "M(3)"], "a second range '>=2 sum(...)' takes over at 2", "two-ranges"),
+    ]
+    for defn, probes, want, what, key in cases:
+        J, pot = potential(defn)
+        if J is None:
+            got = pot
         else:
-            tup = J.call(J.module_global(mod_c, "PotentialFormInstanceTuple"), [Const("as.x"), ListV([], "list"), start, NONE], {})
-            name = "F"
-        pot = W.run_method(J, pb, "create_potential_function", [tup])
-        below = J.num(J.call(pot, [Num(ep.const(1))], {}))
-        at = J.num(J.call(pot, [Num(ep.const(2))], {}))
-        above = J.num(J.call(pot, [Num(ep.const(3))], {}))
-        ok = below.is_zero() and ep.equal(at, ep.app(("param", name), [ep.const(2)]))[0] \
-            and ep.equal(above, ep.app(("param", name), [ep.const(3)]))[0]
-        chk.ob("C08.O4", "%s: 0 below its start, its own value from the start on" % what, ok,
-               site=b_cls.lookup("create_potential_function").site(), found=(below, at, above), expect="(0, f(2), f(3))",
-               key="C08.O4|lone|%s" % ("modifier" if is_mod else "form"))
-    # 4. grammar: no earlier alternative is a prefix of a later one
-    gfi = P.func("atsim.potentials.config._multi_range_parser", "_grammar")
-    lits = None
-    for st_ in ast.walk(gfi.node):
-        if isinstance(st_, ast.Assign) and any(isinstance(t, ast.Name) and t.id == "range_start" for t in st_.targets):
-            found = []
-            for n in ast.walk(st_.value):
-                if isinstance(n, ast.Call) and isinstance(n.func, ast.Name) and n.func.id == "Literal" and n.args \
-                        and isinstance(n.args[0], ast.Constant):
-                    found.append((n.col_offset, n.lineno, n.args[0].value))
-            lits = [v for _, _, v in sorted(found, key=lambda t: (t[1], t[0]))]
-    if not lits:
-        raise AnalysisError("range_start alternatives not found in the grammar")
-    ok = set(lits) == {">", ">="} and not any(lits[j].startswith(lits[i]) and lits[i] != lits[j] for i in range(len(lits)) for j in range(i + 1, len(lits)))
-    chk.ob("C08.O4", "grammar tries '>=' before '>' (an earlier literal never shadows a later one)", ok, site=gfi.site(), found=lits,
-           expect="['>=', '>']", key="C08.O4|grammar")
+            try:
+                got = [at(J, pot, r) for r in probes]
+            except RaiseSignal as e:
+                got = "raises %r" % (e.exc,)
+        chk.ob("C08.O4", "%r: %s" % (defn, what), got == want, site=site, found=got, expect="values %s at r = %s" % (want, list(probes)),
+               key="C08.O4|%s" % key)
 
 
 def factory_class(chk, P):
